@@ -22,11 +22,12 @@ MODULE, CFG = 'OciScopeTrace', 'OciScopeTrace.cfg'
 
 
 def _cases(ctx, quick):
-    cases, r = vlib.generate(ctx, 'OciScopeMC.tla', 'OciScopeGen_%s.cfg' % ('quick' if quick else 'thorough'),
-                             workers=1, timeout=900)
+    cases, r = _again(ctx, 'case export', lambda: vlib.generate(ctx, 'OciScopeMC.tla', 'OciScopeGen_%s.cfg' % ('quick' if quick else 'thorough'),
+                                                                workers=1, timeout=900))
     uni = [c for c in cases if c.get('kind') == 'universe']
     rest = [c for c in cases if c.get('kind') != 'universe']
-    if len(uni) != 1 or not rest:
+    npair = 65 if quick else 513          # scopes over the pair universe (2^6 or 2^9 sets, and unlimited)
+    if len(uni) != 1 or len(rest) != 513 + npair * npair - npair:
         raise vlib.Machinery('case export: %d universe lines, %d cases\n%s' % (len(uni), len(rest), vlib.tlc_errors(r['out'])))
     # the hand-written byte order of the MC module must be the real one (the traces use the
     # harness-computed order; this guards the model-level Iter law against a typo)
@@ -76,7 +77,34 @@ def _sample(trace, n, skip=0):
     return out
 
 
-def _diagnose(ctx, trace):
+def _again(ctx, what, f):
+    """Runs f(); repeats it (twice at most) when the TLC process ended without a verdict and without
+    any error text - seen when a JVM is killed from outside while 40 others run.  A real error has
+    text and is raised at once."""
+    for attempt in range(3):
+        try:
+            return f()
+        except vlib.Machinery as e:
+            if attempt == 2 or not str(e).rstrip().endswith(':'):
+                raise
+            ctx.log('TLC ended without verdict and without error text (%s); running it again' % what)
+
+
+def _validate(ctx, trace):
+    return _again(ctx, os.path.basename(trace), lambda: vlib.validate_trace(ctx, MODULE, CFG, trace))
+
+
+def _judge_traces(ctx, paths, label):
+    """vlib.judge_traces with the same repetition."""
+    nv, nk = len(ctx.violations), len(ctx.known)
+
+    def f():
+        del ctx.violations[nv:], ctx.known[nk:]
+        return vlib.judge_traces(ctx, MODULE, CFG, paths, label=label)
+    return _again(ctx, label, f)
+
+
+def _diagnose(ctx, trace, attempt=0):
     """All rejected lines of an already rejected trace, in one TLC run (Diagnose = TRUE: a rejected
     event is printed and skipped; events are independent of one another)."""
     d = ctx.specdir()
@@ -86,8 +114,10 @@ def _diagnose(ctx, trace):
     cfg = vlib.cfg_with(ctx, d, CFG, {'Diagnose': True})
     r = vlib.run_tlc(ctx, d, MODULE + '.tla', cfg, workers=1, timeout=900, env={'TRACE_FILE': os.path.abspath(trace)})
     shutil.rmtree(d, ignore_errors=True)
+    if not r['ok'] and not vlib.tlc_errors(r['out']) and attempt < 2:
+        return _diagnose(ctx, trace, attempt + 1)
     if not r['ok']:
-        raise vlib.Machinery('diagnosis run on %s broke:\n%s' % (trace, vlib.tlc_errors(r['out'])))
+        raise vlib.Machinery('diagnosis run on %s broke (rc %s):\n%s' % (trace, r['rc'], vlib.tlc_errors(r['out']) or r['out'][-1500:]))
     return sorted(set(int(m) for m in re.findall(r'^<<"REJECTED", (\d+)>>$', r['out'], re.M)))
 
 
@@ -114,7 +144,7 @@ def _judge(ctx, traces, shard_lines, label, report=16):
         i, (hdr, scen) = item
         p = os.path.join(sd, 'shard%03d.ndjson' % i)
         vlib.write_trace(p, hdr, scen)
-        r = vlib.validate_trace(ctx, MODULE, CFG, p)
+        r = _validate(ctx, p)
         if r['accepted']:
             return len(scen), [], r.get('states', 0)
         owner = {}
@@ -148,7 +178,7 @@ def _judge(ctx, traces, shard_lines, label, report=16):
             vlib.write_trace(p, hdr, [sc])
             paths.append(p)
         before = len(ctx.violations) + len(ctx.known)
-        vlib.judge_traces(ctx, MODULE, CFG, paths, label='%s: %d of the %d rejected scenarios in isolation' % (label, len(paths), len(rejected)))
+        _judge_traces(ctx, paths, '%s: %d of the %d rejected scenarios in isolation' % (label, len(paths), len(rejected)))
         if len(ctx.violations) + len(ctx.known) == before:
             raise vlib.Machinery('scenarios rejected in their shard were accepted in isolation')
     return accepted
@@ -157,9 +187,10 @@ def _judge(ctx, traces, shard_lines, label, report=16):
 def run(ctx):
     quick = ctx.tier == 'quick'
     # 1. the model
-    vlib.model_check(ctx, 'OciScopeMC.tla', 'OciScopeMC_%s.cfg' % ('quick' if quick else 'thorough'),
-                     what='9-triple universe: all 2^9 sets + unlimited; ordered pairs over %s' %
-                     ('a 6-triple sub-universe (65^2)' if quick else 'the whole universe (513^2)'))
+    _again(ctx, 'model check', lambda: vlib.model_check(
+        ctx, 'OciScopeMC.tla', 'OciScopeMC_%s.cfg' % ('quick' if quick else 'thorough'),
+        what='9-triple universe: all 2^9 sets + unlimited; ordered pairs over %s' %
+        ('a 6-triple sub-universe (65^2)' if quick else 'the whole universe (513^2)')))
     # 2. cases chosen by TLC, random programs; executed on the real code
     uni, cases = _cases(ctx, quick)
     cd = ctx.sub('cases')
@@ -171,7 +202,7 @@ def run(ctx):
     vh = vlib.build_harness(ctx)
     td = ctx.sub('traces')
     t1 = os.path.join(td, 'tlc.ndjson')
-    vlib.run_harness(ctx, vh, ['scope', '-cases', cp, '-seed', str(ctx.seed), '-out', t1])
+    vlib.run_harness(ctx, vh, ['scope', '-cases', cp, '-seed', str(ctx.seed), '-full-every', '1' if quick else '16', '-out', t1])
     traces = [t1]
     nrand = 1500 if quick else 40000
     per = 10000
@@ -209,7 +240,7 @@ def replay(ctx, path):
     out = os.path.join(ctx.sub('replay'), 'trace.ndjson')
     vlib.run_harness(ctx, vh, ['scope', '-replay', path, '-seed', str(ctx.seed), '-out', out])
     before = len(ctx.violations)
-    vlib.judge_traces(ctx, MODULE, CFG, [out], label='replay')
+    _judge_traces(ctx, [out], 'replay')
     for k in ctx.known:
         print('KNOWN-FINDING: property=%s %s: %s' % (ctx.pid, k['id'], k['what']))
     if len(ctx.violations) > before:
